@@ -221,8 +221,8 @@ def run(ctx):
                 continue
             else:
                 raise AnalysisError(f"{chk.qualname}: result {v!r} not modelled")
-        w = [I.atom_form(("w", i)) for i in range(96)]
-        k = [I.atom_form(("k", i)) for i in range(24)]
+        w = [I.raw_atom(("w", i)) for i in range(96)]   # reference forms: not rewritten by the path explored last
+        k = [I.raw_atom(("k", i)) for i in range(24)]
         syn = syndromes(octets(w[:72] + [b ^ kk for b, kk in zip(w[72:], k)]))
         if len(accept) != 1:
             if not accept:
